@@ -7,7 +7,8 @@ from tfv import core
 from tfv.core import Violation, run_async
 from tfv.data import Tree
 from tfv.impl import Harness, clean_registry
-from tfv.model import canon, print_document
+from tfv.gen import gen_const_value
+from tfv.model import canon, print_document, ty
 from tfv.props import c01, c02, c14
 
 ID = "C17"
@@ -25,6 +26,7 @@ RULE = (
     "bundles are siblings of an earlier one - identical SDL, or the same names with one interface implementation / union member removed; custom "
     "scalars, directives and resolvers of every bundle behave differently under the same names - and are also probed with that bundle's very request texts. Distinct = SHA-1 of (bundles, step order); non-trivial = some name is "
     "defined differently in >= 2 bundles and their registration steps were interleaved (not bundle after bundle)."
+    " 30% of the bundles replace the built-in String by their own implementation (`scalar String` in their SDL)."
 )
 ASSUMPTIONS = ["responses compared as canonical JSON; harness values have address-free reprs"]
 
@@ -148,23 +150,47 @@ def gen_bundle(c, index, clone_of=None):
         sub = c.maybe(40)
         schema, plan = c01.build_schema(c, {"subscription": sub, "max_objects": 3})
         plan["sdl_ext_dirs"] = c.maybe(50)
+    # one echo field per custom scalar on the query root, so that every bundle's probes run its scalars' input side
+    qroot = schema["types"][schema["roots"]["query"]]
+    for sn, sd_ in list(schema["types"].items()):
+        if sd_["kind"] == "SCALAR" and ("zz" + sn) not in qroot["fields"]:
+            qroot["fields"]["zz" + sn] = {"type": "String", "args": {"a": {"type": sn}}}
     plan["directive_tag"] = "B%d" % index
     plan["scalar_tag"] = "B%d" % index  # every bundle implements its custom scalars differently (input side)
+    plan["override_string"] = ("B%d" % index) if c.maybe(30) else None  # ... and some replace the built-in String (output side)
     plan["default_fields"] = [] if sub else plan["default_fields"]
     requests = []
     if clone_of is not None:
         # the very texts (and variables, data) the other bundle is probed with: byte-identical requests on two engines.
         # Whether they are valid here does not matter: the oracle is this bundle answering the same text alone.
-        requests = [copy.deepcopy(r) for r in clone_of["requests"][-3:]]
+        requests = [copy.deepcopy(r) for r in clone_of["requests"][-5:]]
     for _ in range(3 if clone_of is None else 2):
         spec, _ = c01.build_request(c, schema, plan, {"max_nodes": 8, "op_types": ["query"]})
         tree, ex, expected, root = c01.reference(spec, c)
         requests.append({"doc": spec["doc"], "op": spec["op"], "variables": spec["variables"], "tree": spec["tree"], "root": root})
+    for sn, sd_ in schema["types"].items():
+        if sd_["kind"] == "SCALAR" and clone_of is None:
+            lit = gen_const_value(c, schema, ty(sn), nullp=0)
+            doc = {"defs": [{"k": "op", "type": "query", "name": None, "vars": [], "dirs": [], "sels": [
+                {"k": "field", "alias": None, "name": "zz" + sn, "args": [["a", lit]], "dirs": [], "sels": None, "id": 1},
+                {"k": "field", "alias": "again", "name": "zz" + sn, "args": [["a", lit]], "dirs": [], "sels": None, "id": 2}]}]}
+            spec = {"schema": schema, "plan": plan, "doc": doc, "op": None, "variables": {}, "tree": None}
+            tree, ex, expected, root = c01.reference(spec, c)
+            requests.append({"doc": doc, "op": None, "variables": {}, "tree": spec["tree"], "root": root})
     subs = []
     if sub:
         s = c14.build_request(c, schema, plan)
         subs.append({k: s[k] for k in ("schema", "doc", "op", "variables", "tree", "events", "faults", "decoy")})
-    return {"schema": schema, "plan": plan, "requests": requests, "subscriptions": subs, "engine_kwargs": {}, "variant": variant}
+    stack_group = None
+    if clone_of is not None and c.maybe(50):
+        # the sibling links its custom scalars by stacking the decorator on the other bundle's class (same class, same
+        # behaviour, but every schema name must still get its own instance and state)
+        stack_group = clone_of.get("stack_group")
+        if stack_group is None:
+            stack_group = clone_of["stack_group"] = index
+        plan["scalar_tag"] = clone_of["plan"]["scalar_tag"]
+    plan["scalar_stateful"] = True
+    return {"schema": schema, "plan": plan, "requests": requests, "subscriptions": subs, "engine_kwargs": {}, "variant": variant, "stack_group": stack_group}
 
 
 def overlapping_names(bundles):
@@ -184,6 +210,10 @@ def run_scenario(spec):
     bundles = spec["bundles"]
     clean_registry()
     hs = [make_harness(b, "b%d" % i) for i, b in enumerate(bundles)]
+    groups = {}
+    for h, b in zip(hs, bundles):
+        if b.get("stack_group") is not None:
+            h.stacked_scalars = groups.setdefault(b["stack_group"], {})
     steps = [h.registration_steps() for h in hs]
     pos = [0] * len(hs)
     cooked = [False] * len(hs)
@@ -199,7 +229,7 @@ def run_scenario(spec):
                 from tartiflette import create_engine
                 from tfv.model import print_sdl
 
-                h.sdl = print_sdl(b["schema"], ext_dirs=bool(b["plan"].get("sdl_ext_dirs")))
+                h.sdl = print_sdl(b["schema"], ext_dirs=bool(b["plan"].get("sdl_ext_dirs"))) + ("\nscalar String\n" if b["plan"].get("override_string") else "")
                 kw = dict(b.get("engine_kwargs", {}))
                 if b["plan"].get("custom_default_resolver"):
                     kw["custom_default_resolver"] = h.custom_default_resolver
@@ -256,7 +286,7 @@ def case(c, stats):
     run_scenario(spec)
     nt = overlapping_names(bundles) > 0 and interleaved([tuple(x) for x in order])
     stats.case({"b": [(b["schema"], b["plan"]) for b in bundles], "o": order}, nt,
-               ["bundles:%d" % n, "identical_sdl:%s" % (len({canon(b["schema"]) for b in bundles}) < n), "with_subscription:%d" % sum(1 for b in bundles if b["subscriptions"]), ] + sorted({"sibling:" + b["variant"] for b in bundles if b.get("variant")}) + [ "redefined_names:%d" % min(overlapping_names(bundles), 9)],
+               ["bundles:%d" % n, "identical_sdl:%s" % (len({canon(b["schema"]) for b in bundles}) < n), "with_subscription:%d" % sum(1 for b in bundles if b["subscriptions"]), ] + sorted({"sibling:" + b["variant"] for b in bundles if b.get("variant")}) + (["stacked_scalar_decorators"] if any(b.get("stack_group") is not None and any(t["kind"] == "SCALAR" for t in b["schema"]["types"].values()) for b in bundles) else []) + [ "redefined_names:%d" % min(overlapping_names(bundles), 9)],
                {"bundles": [{"types": list(b["schema"]["types"]), "probes": len(b["requests"]) + 1 + len(b["subscriptions"])} for b in bundles], "order": order})
 
 
